@@ -4,6 +4,7 @@ import (
 	"go/token"
 
 	"golang.org/x/tools/go/ssa"
+	"golang.org/x/tools/go/ssa/ssautil"
 )
 
 // Guard is a branch edge every path to some instruction must take.
@@ -557,6 +558,134 @@ func fsUnique(x ssa.Value, at ssa.Instruction, via *ssa.BasicBlock) ssa.Value {
 type CAlt struct {
 	K     *ssa.Const // nil: not a constant on this alternative
 	Conds []Atom
+	// table alternatives (value read from a read-only package-level map):
+	// the key expression, and the constant it equals on this alternative
+	// (Miss: the key is none of the table's keys)
+	Key      ssa.Value
+	KeyConst *ssa.Const
+	Miss     bool
+	Lookup   *ssa.Lookup
+	// Env: parameters of helpers the alternative passed through -> the
+	// caller's argument values (to interpret operands of Conds and Key)
+	Env map[ssa.Value]ssa.Value
+}
+
+// Arg: v, or the caller's argument it stands for when v is a parameter of a
+// helper the alternative passed through.
+func (a CAlt) Arg(v ssa.Value) ssa.Value {
+	for i := 0; i < 4; i++ {
+		w, ok := a.Env[v]
+		if !ok {
+			return v
+		}
+		v = w
+	}
+	return v
+}
+
+// readOnlyTable: the constant entries of a package-level map variable that is
+// assigned once, in the package initialiser, from a literal with constant
+// keys and values, and never written afterwards. ok=false otherwise.
+func readOnlyTable(g *ssa.Global) (keys, vals []*ssa.Const, ok bool) {
+	if g.Pkg == nil {
+		return nil, nil, false
+	}
+	var mk *ssa.MakeMap
+	nstore := 0
+	for _, m := range g.Pkg.Members {
+		fn, isFn := m.(*ssa.Function)
+		if !isFn {
+			continue
+		}
+		var fns []*ssa.Function
+		fns = append(fns, fn)
+		fns = append(fns, fn.AnonFuncs...)
+		for _, f := range fns {
+			for _, b := range f.Blocks {
+				for _, in := range b.Instrs {
+					switch x := in.(type) {
+					case *ssa.Store:
+						if x.Addr == ssa.Value(g) {
+							nstore++
+							if f.Name() != "init" {
+								return nil, nil, false
+							}
+							mk, _ = x.Val.(*ssa.MakeMap)
+						}
+					case *ssa.MapUpdate:
+						if ld, isLd := x.Map.(*ssa.UnOp); isLd && ld.X == ssa.Value(g) {
+							return nil, nil, false
+						}
+					case *ssa.Call:
+						if bi, isB := x.Call.Value.(*ssa.Builtin); isB && bi.Name() == "delete" && len(x.Call.Args) > 0 {
+							if ld, isLd := x.Call.Args[0].(*ssa.UnOp); isLd && ld.X == ssa.Value(g) {
+								return nil, nil, false
+							}
+						}
+					}
+				}
+			}
+		}
+	}
+	// methods of the package are not Members: scan them through the program
+	for fn := range ssaAllFuncsOf(g.Pkg) {
+		for _, b := range fn.Blocks {
+			for _, in := range b.Instrs {
+				switch x := in.(type) {
+				case *ssa.Store:
+					if x.Addr == ssa.Value(g) && fn.Name() != "init" {
+						return nil, nil, false
+					}
+				case *ssa.MapUpdate:
+					if ld, isLd := x.Map.(*ssa.UnOp); isLd && ld.X == ssa.Value(g) {
+						return nil, nil, false
+					}
+				}
+			}
+		}
+	}
+	if nstore != 1 || mk == nil {
+		return nil, nil, false
+	}
+	refs := mk.Referrers()
+	if refs == nil {
+		return nil, nil, false
+	}
+	for _, u := range *refs {
+		switch x := u.(type) {
+		case *ssa.MapUpdate:
+			k, isK := x.Key.(*ssa.Const)
+			v, isV := x.Value.(*ssa.Const)
+			if !isK || !isV {
+				return nil, nil, false
+			}
+			keys = append(keys, k)
+			vals = append(vals, v)
+		case *ssa.Store, *ssa.DebugRef:
+		default:
+			return nil, nil, false
+		}
+	}
+	return keys, vals, len(keys) > 0
+}
+
+var ssaFuncsByPkg map[*ssa.Package]map[*ssa.Function]bool
+
+func ssaAllFuncsOf(pkg *ssa.Package) map[*ssa.Function]bool {
+	if ssaFuncsByPkg == nil {
+		ssaFuncsByPkg = map[*ssa.Package]map[*ssa.Function]bool{}
+	}
+	if m, ok := ssaFuncsByPkg[pkg]; ok {
+		return m
+	}
+	m := map[*ssa.Function]bool{}
+	for fn := range ssautil.AllFunctions(pkg.Prog) {
+		if fn.Pkg == pkg && fn.Blocks != nil {
+			m[fn] = true
+		}
+	}
+	ssaFuncsByPkg[pkg] = m
+	return m
 }
 
 // condAlts enumerates the constants a value can be together with the
@@ -575,9 +704,42 @@ func condAlts(v ssa.Value, depth int) []CAlt {
 		}
 	}
 	v = strip(v)
+	tableAlts := func(lk *ssa.Lookup) []CAlt {
+		ld, ok := lk.X.(*ssa.UnOp)
+		if !ok || ld.Op != token.MUL {
+			return nil
+		}
+		g, ok := ld.X.(*ssa.Global)
+		if !ok {
+			return nil
+		}
+		keys, vals, ok := readOnlyTable(g)
+		if !ok {
+			return nil
+		}
+		var out []CAlt
+		for i := range keys {
+			out = append(out, CAlt{K: vals[i], Key: lk.Index, KeyConst: keys[i], Lookup: lk})
+		}
+		// none of the keys: the zero value
+		out = append(out, CAlt{K: ssa.NewConst(nil, vals[0].Type()), Key: lk.Index, Miss: true, Lookup: lk})
+		return out
+	}
 	switch x := v.(type) {
 	case *ssa.Const:
 		return []CAlt{{K: x}}
+	case *ssa.Lookup:
+		if alts := tableAlts(x); alts != nil {
+			return alts
+		}
+		return []CAlt{{}}
+	case *ssa.Extract:
+		if lk, ok := x.Tuple.(*ssa.Lookup); ok && x.Index == 0 {
+			if alts := tableAlts(lk); alts != nil {
+				return alts
+			}
+		}
+		return []CAlt{{}}
 	case *ssa.Phi:
 		if depth > 4 {
 			return []CAlt{{}}
@@ -594,7 +756,23 @@ func condAlts(v ssa.Value, depth int) []CAlt {
 				conds = append(conds, norm(iff.Cond, pred.Succs[0] == x.Block()))
 			}
 			for _, sub := range condAlts(e, depth+1) {
-				out = append(out, CAlt{K: sub.K, Conds: append(append([]Atom{}, conds...), sub.Conds...)})
+				// a table alternative under the lookup's own presence flag
+				if sub.Lookup != nil {
+					skip := false
+					for _, a := range conds {
+						if ex, ok := a.V.(*ssa.Extract); ok && ex.Tuple == ssa.Value(sub.Lookup) && ex.Index == 1 {
+							if a.Pos == sub.Miss {
+								skip = true
+							}
+						}
+					}
+					if skip {
+						continue
+					}
+				}
+				na := sub
+				na.Conds = append(append([]Atom{}, conds...), sub.Conds...)
+				out = append(out, na)
 			}
 		}
 		return out
@@ -624,9 +802,19 @@ func condAlts(v ssa.Value, depth int) []CAlt {
 				conds = append(conds, translate(atomsOf(g)))
 			}
 			for _, sub := range condAlts(ret.Results[0], depth+1) {
-				alt := CAlt{K: sub.K, Conds: append([]Atom{}, conds...)}
+				alt := sub
+				alt.Conds = append([]Atom{}, conds...)
 				for _, a := range sub.Conds {
 					alt.Conds = append(alt.Conds, translate(a))
+				}
+				alt.Env = map[ssa.Value]ssa.Value{}
+				for k, v := range sub.Env {
+					alt.Env[k] = v
+				}
+				for i, q := range sc.Params {
+					if i < len(x.Call.Args) {
+						alt.Env[q] = x.Call.Args[i]
+					}
 				}
 				out = append(out, alt)
 			}
